@@ -285,7 +285,7 @@ func buildReaderPool(r *gen.Rand) *readerPool {
 	cats := []string{"Forward", "Return", "NOC", "RefusedNOC", "DishonoredReturn", "DishonoredReturnContested"}
 	for i := 0; len(p.files) < 60 && i < 400; i++ {
 		fr := r.Fork(uint64(1000 + i))
-		o := gen.Opts{MaxBatches: 1 + i%3, MaxEntries: 1 + i%4, Categories: cats}
+		o := gen.Opts{IATCorrections: true, MaxBatches: 1 + i%3, MaxEntries: 1 + i%4, Categories: cats}
 		switch i % 6 {
 		case 0:
 			o.SECs = []string{"ADV"}
